@@ -6,7 +6,9 @@ fn list(items: &[(Vec<usize>, i64)]) -> String { items.iter().map(|(s, o)| tag_o
 fn gen(tier: &str, seed: u64, out: &mut dyn FnMut(String)) {
     let thorough = tier == "thorough";
     let mut rng = Rng::new(seed);
-    for l in ["array_split i2,4 2 1", "array_split i2,5 3 1", "hstack i2,2;i2,1+1000", "dstack i2,2,1;i2,2,2+1000", "stack i2,3;i2,3+1000 2", "array_split i3,2,2 2 0"] { out(l.to_string()); }
+    for l in ["array_split i2,4 2 1", "array_split i2,5 3 1", "hstack i2,2;i2,1+1000", "dstack i2,2,1;i2,2,2+1000", "stack i2,3;i2,3+1000 2", "array_split i3,2,2 2 0",
+              // off-axis lengths differ but have the same product (permuted / regrouped): must be refused
+              "append i2,3,2 i1,2,3+1000 0", "concatenate i2,4,1;i2,2,2+1000 0"] { out(l.to_string()); }
     let mut all = shapes(1, 4, 1, 3);
     all.extend(vec![vec![4], vec![5], vec![7], vec![2, 4], vec![5, 2], vec![2, 2, 5]]);
     for s in &all {
@@ -49,6 +51,35 @@ fn gen(tier: &str, seed: u64, out: &mut dyn FnMut(String)) {
     // mixed ranks for the conveniences
     for l in ["vstack i3;i1,3+1000", "vstack i3;i2,3+1000;i3+2000", "hstack i2;i3+1000;i1+2000", "hstack i2;i2,1+1000", "dstack i2;i1,2+1000;i1,2,1+2000", "dstack i2,3;i2,3,2+1000",
               "column_stack i3;i3,2+1000;i3+2000", "column_stack i3;i2+1000", "column_stack i2,2,2", "row_stack i2;i2+1000;i2+2000", "vstack -", "hstack -", "dstack -", "column_stack -", "concatenate - 0", "stack - 0"] { out(l.to_string()); }
+    // off-axis MISMATCHES THAT KEEP THE PRODUCT of the other axes: permuted off-axis lengths and regrouped factors, rank 3 and 4,
+    // every axis, both orders, mismatch at the first and at a later pair; all must be refused
+    {
+        let offs: Vec<(Vec<usize>, Vec<usize>)> = vec![
+            (vec![2, 3], vec![3, 2]), (vec![1, 2], vec![2, 1]), (vec![4, 1], vec![2, 2]), (vec![1, 6], vec![3, 2]), (vec![2, 1], vec![1, 2]),
+            (vec![2, 3, 1], vec![3, 1, 2]), (vec![2, 3, 2], vec![3, 2, 2]), (vec![1, 2, 3], vec![1, 3, 2]), (vec![4, 1, 2], vec![2, 2, 2]), (vec![2, 2, 3], vec![4, 1, 3]), (vec![1, 1, 4], vec![2, 2, 1])];
+        for (pa, pb) in &offs {
+            let nd = pa.len() + 1;
+            for ax in 0..nd {
+                for (ka, kb) in [(2usize, 2usize), (2, 1), (1, 3)] {
+                    let mut sa = pa.clone(); sa.insert(ax, ka); let mut sb = pb.clone(); sb.insert(ax, kb);
+                    let (a, b, b2) = (tag(&sa), tag_off(&sb, 1000), tag_off(&sa, 2000));
+                    out(format!("append {a} {b} {ax}")); out(format!("append {b} {a} {ax}"));
+                    out(format!("concatenate {a};{b} {ax}")); out(format!("concatenate {b};{a} {ax}"));
+                    out(format!("concatenate {a};{b2};{b} {ax}")); out(format!("concatenate {a};{b};{b2} {ax}"));
+                    let ops: &[&str] = match ax { 0 => &["vstack", "row_stack"], 1 => &["hstack", "column_stack"], 2 => &["dstack"], _ => &[] };
+                    for op in ops { out(format!("{op} {a};{b}")); out(format!("{op} {b};{a}")); out(format!("{op} {a};{b2};{b}")); }
+                }
+            }
+        }
+        // dstack promotes rank 2 to [m,n,1]: 2-D inputs whose shapes are permutations of each other
+        for l in ["dstack i2,3;i3,2+1000", "dstack i1,4;i2,2+1000", "dstack i4,1;i2,2+1000;i2,2+2000", "dstack i2,3,1;i3,2+1000", "vstack i2,3,1;i3,2,1+1000",
+                  "hstack i2,1,3;i3,1,2+1000", "hstack i6;i2,3+1000", "vstack i6;i2,3+1000", "vstack i2,3;i6+1000",
+                  // stack: shapes that are permutations / regroupings of each other (same element count)
+                  "stack i2,3;i3,2+1000 0", "stack i2,3;i3,2+1000 1", "stack i2,3;i2,3+1000;i3,2+2000 0", "stack i2,3,2;i3,2,2+1000 0", "stack i2,3,2;i2,2,3+1000 2",
+                  "stack i4,1;i2,2+1000 0", "stack i4;i2,2+1000 0", "stack i2,2;i4+1000 0", "stack i1,2,3;i3,2,1+1000 1", "stack i2,3,2,1;i2,1,3,2+1000 3",
+                  // column_stack: same element count, different row count
+                  "column_stack i2,3;i3,2+1000", "column_stack i6;i2,3+1000", "column_stack i2,3;i6+1000", "column_stack i4,1;i2,2+1000", "column_stack i2;i2,2+1000;i4+2000", "column_stack i2,2;i1,4+1000"] { out(l.to_string()); }
+    }
     // zero-size arrays (an empty axis on or off the joining axis): joining, stacking, the conveniences, splitting
     for s in [vec![0usize], vec![2, 0], vec![0, 2], vec![0, 0], vec![2, 0, 3], vec![2, 3, 0], vec![0, 2, 2]] {
         let nd = s.len(); let a = tag(&s);
@@ -117,5 +148,5 @@ fn nontrivial(op: &str, args: &[&str]) -> bool {
 
 fn main() {
     harness_main(Spec { prop: "C11", gen, exec, nontrivial, hang_secs: 20,
-        rule: "every shape rank<=4 len<=3 (+ lengths 4-7): array_split / split / split-then-concatenate for EVERY axis and every part count 1..len+2 (+0, axis none, axis out of range), split_axis, hsplit/vsplit/dsplit 0..4; concatenate/append of 2-4 arrays with seeded lengths 1..3 along EVERY axis (+ off-axis mismatch, rank mismatch, flat form), stack on every axis (+none, rank, rank+1), the five conveniences on equal shapes / shapes differing along the stacking axis / off-axis mismatches / mixed ranks / empty lists; zero-size shapes ([0],[2,0],[0,2],[0,0],[2,0,3],[2,3,0],[0,2,2]): append/concatenate with partners of length 0..2 on every axis, stack, the five conveniences, every split; seeded random rank<=5. Tag arrays. non-trivial: >=2 parts on rank>=2, or >=2 arrays joined" });
+        rule: "every shape rank<=4 len<=3 (+ lengths 4-7): array_split / split / split-then-concatenate for EVERY axis and every part count 1..len+2 (+0, axis none, axis out of range), split_axis, hsplit/vsplit/dsplit 0..4; concatenate/append of 2-4 arrays with seeded lengths 1..3 along EVERY axis (+ off-axis mismatch, rank mismatch, flat form), stack on every axis (+none, rank, rank+1), the five conveniences on equal shapes / shapes differing along the stacking axis / off-axis mismatches / mixed ranks / empty lists; off-axis mismatches that keep the product of the other axes (permuted / regrouped off-axis lengths, rank 3-4, every axis, both orders, first and later pair) for append/concatenate/vstack/row_stack/hstack/column_stack/dstack, permuted shapes for stack and column_stack - all must be refused; zero-size shapes ([0],[2,0],[0,2],[0,0],[2,0,3],[2,3,0],[0,2,2]): append/concatenate with partners of length 0..2 on every axis, stack, the five conveniences, every split; seeded random rank<=5. Tag arrays. non-trivial: >=2 parts on rank>=2, or >=2 arrays joined" });
 }
